@@ -14,6 +14,7 @@ import random
 import re
 import shutil
 import signal
+import threading
 import subprocess
 import sys
 import time
@@ -376,6 +377,32 @@ def proof_stage(prop):
     return res
 
 
+_CRUMB = os.environ.get("VERIF_BREADCRUMB")
+
+
+class CaseTimeout(Exception):
+    pass
+
+
+def _emergency_report(prop, suite_name, case, seed, limit):
+    """last resort (called from a watchdog thread): the case neither returned nor could be interrupted"""
+    try:
+        os.makedirs(os.path.join(REPLAYS, prop), exist_ok=True)
+        path = os.path.join(REPLAYS, prop, f"{seed}-hang.json")
+        with open(path, "w") as f:
+            json.dump({"property": prop, "kind": "spec", "suite": suite_name, "case": case,
+                       "observed": {"harness_exception": "NoAnswerWithinTimeLimit",
+                                    "trace": f"no answer within {limit} s and the computation could not be interrupted (native code)"},
+                       "rerun": f"./check {prop} --replay {path}"}, f, indent=1, default=str)
+        print(f"VIOLATION property={prop} replay={path}", flush=True)
+    finally:
+        os._exit(1)
+
+
+def _on_alarm(signum, frame):
+    raise CaseTimeout()
+
+
 def gen_stage(prop, targets):
     """translation tie (tools/py2coq.py): regenerate the Gallina text of a few decision kernels from the CURRENT source of
     VERIF_REPO and re-check the hand-written equivalence lemmas (coq/gen_equiv/Equiv_<t>.v) against it.
@@ -486,7 +513,7 @@ def run_check(prop, suites, tier, seed, level_note, trusted_extra=(), replay=Non
                 import gen as _gen
                 cases = _gen.decorate_cases(cases, rng, getattr(suite, "names_rate", 0), getattr(suite, "past_rate", 0))
         all_cases = list(cases)
-        nm_total = ns_total = ncases = ncrashed = 0
+        nm_total = ns_total = ncases = ncrashed = ntimeouts_total = 0
         escalated = 0
         disagreeing = []
         cos = []
@@ -505,11 +532,35 @@ def run_check(prop, suites, tier, seed, level_note, trusted_extra=(), replay=Non
                     break
             cos = []
             crashed = []
+            n_timeouts = 0
             for c in cases:
+                if n_timeouts >= 3:
+                    notes.append(f"{suite.name}: three cases did not return within the time limit - the remaining cases of the suite were not run")
+                    break
                 try:
                     import gen as _gen
                     _gen.CURRENT = c if isinstance(c, dict) else {}
-                    o = suite.run(c)
+                    # a case that does not come back (a loop that never ends in the library) is a violation with the input as replay,
+                    # not a check that hangs
+                    if _CRUMB and getattr(suite, "breadcrumbs", True):
+                        with open(_CRUMB, "w") as _f:
+                            json.dump({"suite": suite.name, "case": c}, _f, default=str)
+                    signal.signal(signal.SIGALRM, _on_alarm)
+                    limit = int(getattr(suite, "case_timeout", 120))
+                    signal.alarm(limit)
+                    # the alarm cannot interrupt native code (a jitted loop that never ends): a watchdog thread then reports the
+                    # case itself and ends the process
+                    dog = threading.Timer(limit + 45, _emergency_report, args=(prop, suite.name, c, seed, limit))
+                    dog.daemon = True
+                    dog.start()
+                    try:
+                        o = suite.run(c)
+                    finally:
+                        signal.alarm(0)
+                        dog.cancel()
+                except CaseTimeout:
+                    o = {"harness_exception": "NoAnswerWithinTimeLimit", "trace": f"no answer within {getattr(suite, 'case_timeout', 120)} s"}
+                    n_timeouts += 1
                 except Exception as e:  # the runner itself must not raise: that is a harness/impl surprise
                     o = {"harness_exception": exc_class(e), "trace": traceback.format_exc()[-800:]}
                 if isinstance(o, dict) and "harness_exception" in o:
@@ -518,9 +569,18 @@ def run_check(prop, suites, tier, seed, level_note, trusted_extra=(), replay=Non
                     # input as replay (never passed to Coq: the judges have no encoding for it)
                     crashed.append((c, o))
                     continue
+                try:
+                    # what the library returned must be encodable for the judge: an output the harness cannot even describe (a missing
+                    # field, a value of an unexpected kind) is reported like an unexpected exception, with the input as replay
+                    suite.term(c, o)
+                    suite.stats(c, o, acc)
+                    nt = suite.nontrivial(c, o)
+                except Exception as e:
+                    crashed.append((c, {"harness_exception": "UnencodableOutput:" + exc_class(e), "trace": traceback.format_exc()[-800:],
+                                        "observed": o if isinstance(o, (dict, list, str, int, float)) else repr(o)[:500]}))
+                    continue
                 cos.append((c, o))
-                suite.stats(c, o, acc)
-                if suite.nontrivial(c, o):
+                if nt:
                     distinct.add(canon_hash([suite.name, c]))
             total += len(cos) + len(crashed)
             for c, o in crashed:
@@ -554,10 +614,12 @@ def run_check(prop, suites, tier, seed, level_note, trusted_extra=(), replay=Non
             ns_total += ns + len(crashed)
             ncases += len(cos) + len(crashed)
             ncrashed += len(crashed)
+            ntimeouts_total += n_timeouts
         nm, ns = nm_total, ns_total
         if cos and len(samples) < 6:
             samples.append({"suite": suite.name, "case": cos[len(cos) // 2][0], "observed": cos[len(cos) // 2][1]})
-        per_suite[suite.name] = {"cases": ncases, "unexpected_exceptions": ncrashed, "model_disagreements": nm, "spec_failures": ns,
+        per_suite[suite.name] = {"cases": ncases, "unexpected_exceptions": ncrashed, "no_answer_within_time_limit": ntimeouts_total,
+                                 "model_disagreements": nm, "spec_failures": ns,
                                  "wall_s": round(time.time() - ts, 1)}
         if escalated:
             per_suite[suite.name]["escalated_search_cases"] = escalated
@@ -664,6 +726,38 @@ def main(prop, suites, level_note, trusted_extra=(), rule="", gen_targets=()):
     ap.add_argument("--replay", default=None)
     a = ap.parse_args()
     seed = int(os.environ.get("VERIF_SEED", "20260930"))
+    if os.environ.get("VERIF_CHILD") != "1":
+        # supervisor: the check proper runs in a child process. If the child dies without a verdict (the library corrupted memory,
+        # the interpreter was killed: nothing Python can catch), the case it was running is reported with its input as replay
+        os.makedirs(BUILD, exist_ok=True)
+        crumb = os.path.join(BUILD, f"breadcrumb_{prop}.json")
+        if os.path.exists(crumb):
+            os.remove(crumb)
+        env = dict(os.environ, VERIF_CHILD="1", VERIF_BREADCRUMB=crumb)
+        p = subprocess.Popen([sys.executable, "-u"] + sys.argv, env=env, stdout=subprocess.PIPE, stderr=subprocess.STDOUT, text=True)
+        verdict = False
+        for line in p.stdout:
+            sys.stdout.write(line)
+            sys.stdout.flush()
+            if line.startswith(f"[{prop}] tier=") or line.startswith("VIOLATION property="):
+                verdict = True
+        rc = p.wait()
+        if rc in (0, 1) and (verdict or rc == 0):
+            sys.exit(rc)
+        os.makedirs(os.path.join(REPLAYS, prop), exist_ok=True)
+        path = os.path.join(REPLAYS, prop, f"{seed}-died.json")
+        info = {}
+        try:
+            info = json.load(open(crumb))
+        except Exception:
+            pass
+        with open(path, "w") as f:
+            json.dump({"property": prop, "kind": "spec" if info else "harness", "suite": info.get("suite"), "case": info.get("case"),
+                       "observed": {"harness_exception": "ProcessDied", "trace": f"the checking process ended with status {rc} without a verdict"
+                                    + (" while running this case" if info else " before any case was run")},
+                       "rerun": f"./check {prop} --replay {path}"}, f, indent=1, default=str)
+        print(f"VIOLATION property={prop} replay={path}" + ("" if info else " no-failing-input-found"))
+        sys.exit(1)
     replay = json.load(open(a.replay)) if a.replay else None
     tier = a.tier if a.tier in ("quick", "thorough") else "quick"
     sys.exit(run_check(prop, suites, tier, seed, level_note, trusted_extra, replay, rule, gen_targets))
